@@ -39,7 +39,9 @@ RULE = ("structured generator: datasets of 2-10 users x 3-15 items (users with e
         "fallback, a query (bare id, RecQuery(id), RecQuery(id, training row) -- all three are run --, occasionally None or a history item list) "
         "for a known / unknown / empty / full-history user, candidates absent or supplied (distinct, may contain unknown and seen items), "
         "configured n and run-time n in {None, -1, 1..20}; malformed stream: scorer without score field, predict_pipeline without items, "
-        "run-time n = 0.  non-trivial = no error, >= 3 candidates, a non-empty ranking that leaves out at least one candidate; distinct = by hash of the case")
+        "run-time n = 0.  Every case is additionally run with several nodes requested from ONE run (rating-predictor then recommender, the "
+        "reverse, and run_all() of every node) and with every component node on its own: each requested output must satisfy the property against "
+        "the scoring model's own output, and every node must hold after a run what it produces on its own (no consumer alters a shared output).  non-trivial = no error, >= 3 candidates, a non-empty ranking that leaves out at least one candidate; distinct = by hash of the case")
 
 
 def translate():
@@ -386,6 +388,70 @@ def run_impl(case):
         # the scorer output of the prediction run (the same computation as the recommender's)
         obs["pred_primary"] = _il(case, st[("rating-predictor", "scorer")])
 
+    # ---- every component node on its own (a run that requests only that node: no consumer has seen its
+    # output), and several nodes requested from ONE run in both orders / all nodes: what each node holds
+    # after such a run must be what the node produces on its own, and every requested output must be right
+    def canon(v):
+        if isinstance(v, L.ItemList):
+            return {"t": "il", **_il(case, v)}
+        if isinstance(v, L.RecQuery):
+            return {"t": "q", "user": None if v.user_id is None else str(v.user_id),
+                    "hist": None if v.user_items is None else [_back(case["ds"], x) for x in v.user_items.ids()]}
+        return None
+
+    def full_kw():
+        kw = kwargs(form)
+        if has_rec(case):
+            kw["n"] = n
+        return kw
+
+    def snapshot(state):
+        out = {}
+        for k in state.keys():
+            if k in ("query", "items", "n"):
+                continue
+            c = canon(state[k])
+            if c is not None:
+                out[k] = c
+        return out
+
+    orders = [[x] for x in nodes]
+    if len(nodes) == 2:
+        orders += [["rating-predictor", "recommender"], ["recommender", "rating-predictor"]]
+    if case["items"] is not None and form != "none":
+        orders.append([])                                  # run_all(): every node (needs every input: supplied items and a query)
+    multi, names = [], set()
+    for order in orders:
+        ent = {"order": ",".join(order) or "all"}
+        try:
+            s = pipe.run_all(*order, **full_kw())
+            ent["nodes"] = snapshot(s)
+            names.update(ent["nodes"])
+            for node in nodes:
+                if node in order or not order:
+                    v = s[node]
+                    ent[node] = _il(case, v)
+                    if node == "recommender":
+                        ent["ordered"] = bool(v.ordered)
+        except Exception as e:  # noqa: BLE001
+            ent["err"] = _err(e)
+        multi.append(ent)
+    obs["multi"] = multi
+    names.update(k for (_, k) in st if k not in ("query", "items", "n"))
+    solo = {}
+    for name in sorted(names):
+        try:
+            s = pipe.run_all(name, **full_kw())
+            c = canon(s[name])
+            if c is not None:
+                solo[name] = c
+        except Exception:  # noqa: BLE001
+            pass
+    obs["solo"] = solo
+    if "scorer" in solo:
+        # the scoring model's own output: taken from the run in which nothing but the scorer has seen it
+        obs["scored"] = {"ids": solo["scorer"]["ids"], "scores": solo["scorer"]["scores"]}
+
     # the public entry points, for each form of the query
     forms = [form] + (["qid", "qhist"] if form == "id" else [])
     api = {}
@@ -482,6 +548,18 @@ def coq_term(case, obs):
         parts.append(f"ilist_eqb {c_ilist(obs['pred_primary'])} {c_ilist(obs['scored'])}")
     elif has_pred(case):
         parts.append("false")
+    # several nodes requested from one run: each requested output against the model, with the scorer's own output
+    for ent in obs.get("multi", []):
+        if "err" in ent or obs["scored"]["scores"] is None:
+            continue
+        if "recommender" in ent:
+            parts.append(f"agree_rank {cfg} {run} {clist(obs['cand'], cz)} {c_rows(obs['scored'])} {c_rows(ent['recommender'])} {cbool(ent['ordered'])}")
+        if "rating-predictor" in ent:
+            fbv = ent["nodes"].get("fallback-predictor")
+            parts.append(f"agree_pred {cbool(has_fallback(case))} {c_ilist(obs['scored'])} {copt(fbv, c_ilist)} {c_ilist(ent['rating-predictor'])}")
+        sv = ent["nodes"].get("scorer")
+        if sv is not None:
+            parts.append(f"ilist_eqb {c_ilist(sv)} {c_ilist(obs['scored'])}")       # the scorer's output is a value: nobody alters it
     return " && ".join(f"({x})" for x in parts)
 
 
@@ -589,11 +667,11 @@ def oracle(case, obs):
         if "rating-predictor" in obs["errors"]:
             v.append(("pred-error", f"rating-predictor raised {obs['errors']['rating-predictor']}"))
         else:
-            prim = _rows(obs["pred_primary"])
+            prim = _rows(obs["scored"])
             pred = _rows(obs["pred"])
             fb = None if obs["fb"] is None else dict(_rows(obs["fb"]))
             if has_fallback(case):
-                if obs["pred_primary"]["scores"] is None:
+                if obs["scored"]["scores"] is None:
                     want = None if obs["fb"] is None else _rows(obs["fb"])
                 else:
                     need = any(s is None for _, s in prim)
@@ -615,12 +693,44 @@ def oracle(case, obs):
             for f, ent in obs["api"].items():
                 if f != case["query"]["form"] and ent.get("pred") != a0.get("pred"):
                     v.append((f"query-form:{f}:pred", f"query form {f} predicts differently from the bare identifier"))
+    _check_multi(v, case, obs, cand, bad_scorer)
     seen, out = set(), []
     for k, w in v:
         if k not in seen:
             seen.add(k)
             out.append((k, w))
     return out
+
+
+def _check_multi(v, case, obs, cand, bad_scorer):
+    """Several nodes requested from one run (both orders, and all nodes): every requested output obeys the
+    property with respect to the scoring model's own output, and no node's output is altered by a consumer."""
+    solo = obs.get("solo", {})
+    a0 = obs["api"][case["query"]["form"]]
+    for ent in obs.get("multi", []):
+        order = ent["order"]
+        if "err" in ent:
+            if not bad_scorer:
+                v.append((f"multi[{order}]:error", f"a run requesting [{order}] raised {ent['err']}"))
+            continue
+        for name, val in ent["nodes"].items():
+            if name in solo and val != solo[name]:
+                v.append((f"shared-output-altered:{name}",
+                          f"after one run requesting [{order}] node '{name}' holds {_brief(val)} but the node on its own produces {_brief(solo[name])}: "
+                          f"a consumer altered an output that other components also read"))
+        if "recommender" in ent and obs["scored"] is not None and obs["scored"]["scores"] is not None:
+            _check_ranking(v, f"multi[{order}]:rec", case, cand, obs["scored"], ent["recommender"], ent["ordered"])
+            if "rec" in a0 and ent["recommender"] != a0["rec"]:
+                v.append((f"multi[{order}]:rec:differs", f"recommendations from a run requesting [{order}] {_brief(ent['recommender'])} differ from lenskit.recommend {_brief(a0['rec'])}"))
+        if "rating-predictor" in ent and "pred" in a0 and ent["rating-predictor"] != a0["pred"]:
+            v.append((f"multi[{order}]:pred:differs", f"predictions from a run requesting [{order}] differ from lenskit.predict"))
+
+
+def _brief(il):
+    if "ids" not in il:
+        return str(il)[:200]
+    sc = il["scores"] or [None] * len(il["ids"])
+    return str([(i, None if x is None else round(float(fparse(x)), 4)) for i, x in zip(il["ids"], sc)])[:300]
 
 
 def nontrivial(case, obs):
